@@ -555,6 +555,7 @@ def write_nc(world, party, path):
 def materialise(world, directory):
     """Write every party's file into `directory`; returns the list of file names (inputs, then clim)."""
     names = []
+    os.makedirs(directory, exist_ok=True)
     for party in parties(world):
         path = os.path.join(directory, party["name"])
         if os.path.dirname(party["name"]):
